@@ -252,6 +252,30 @@ def display(chk, F, ty):
         safe = bool(s) and s[0] not in BAD_FIRST and not s.lower().startswith(("inf", "nan"))
         chk.ob("display|%s|symbol|%s|parse-safe" % (ty, f), safe, "a number followed by the symbol parses back unambiguously", body_loc(F, body),
                found=repr(s), required="non-empty, first character not in [0-9.eE+-_ ] and not the start of inf/NaN")
+    # the symbol of a higher-order part is composed of the symbols of its directions: with first-order symbols s_d, the part of
+    # multi-degree (d1, d2, ..) is rendered  s_d1 s_d2 ..  (a repeated direction as a power: ε1² , ε1³)
+    first = {}
+    for f, pd in g["parts"]:
+        if len(pd) == 1 and f in flat:
+            first[pd[0][0]] = flat[f]
+    SUP = {2: "²", 3: "³"}
+    by_field_name = bool(flat) and all(sym == f for f, sym in flat.items())    # the other convention in the crate: `v1`, `v2`, `v3`
+    for f, pd in g["parts"]:
+        if len(pd) < 2 or f not in flat or by_field_name:
+            continue
+        dirs = [d[0] for d in pd]
+        if not all(d in first for d in dirs):
+            continue
+        want_sym, k = "", 0
+        while k < len(dirs):
+            run = 1
+            while k + run < len(dirs) and dirs[k + run] == dirs[k]:
+                run += 1
+            want_sym += first[dirs[k]] + (SUP.get(run, "") if run > 1 else "")
+            k += run
+        chk.ob("display|%s|symbol|%s|composition" % (ty, f), flat[f] == want_sym,
+               "the symbol of a higher-order part names the directions it belongs to (product of the first-order symbols)", body_loc(F, body),
+               found=flat[f], required=want_sym)
     want_parts = [f for f, pd in g["parts"] if pd]
     if n_unsupported and sorted(flat) != sorted(want_parts):
         return None     # the formatter left the analysed fragment (recorded above): nothing to conclude about its symbols
